@@ -3031,6 +3031,9 @@ impl NsRunner {
                 let r = self.eng.delete_from_collection(c, key);
                 if r.is_ok() {
                     self.shadow.remove(&(Some(c.clone()), key.clone()));
+                    // an ACCEPTED delete names a storage key just as a store does: `cdel a emb:k` removes what
+                    // `cstore a:emb k` wrote (same storage key coll:a:emb:k) — the overlap seen through a delete
+                    self.ever.insert((Some(c.clone()), key.clone()));
                     self.wrote(&Some(c.clone()));
                 }
                 plain(r)
